@@ -592,3 +592,56 @@ def inplace_on_inputs(fn: ast.FunctionDef, skip_params: tuple[str, ...] = ("self
                     if isinstance(base, ast.Name) and base.id in alias:
                         rows.append((fn.name, f"item assignment to {ast.unparse(t.value)}"))
     return sorted(set(rows))
+
+
+# --------------------------------------------------------------------------------------------------
+PRIMS = {"center_crop", "complex_center_crop", "complex_random_crop", "pad_tensor", "crop_to_bbox", "crop_to_largest"}
+
+
+def primitive_callers(repo, pkg: str = "direct") -> list[tuple[str, str, str]]:
+    """(file, primitive, module it resolves to) for every call of a crop / pad primitive inside the package
+    (definitions' own files included: `complex_center_crop` calling `crop_to_bbox`)."""
+    import pathlib
+
+    rows = []
+    root = pathlib.Path(repo) / pkg
+    for path in sorted(root.rglob("*.py")):
+        try:
+            src = path.read_text()
+        except OSError:
+            continue
+        if not any(p in src for p in PRIMS):
+            continue
+        try:
+            import warnings
+
+            with warnings.catch_warnings():
+                warnings.simplefilter("ignore")
+                tree = ast.parse(src)
+        except SyntaxError as e:
+            raise Untranslatable(f"cannot parse {path}: {e}")
+        rel = str(path.relative_to(repo))
+        this_mod = rel[:-3].replace("/", ".")
+        names: dict[str, str] = {}       # local name -> module it denotes (for `T.f`) or 'module:func' (for `f`)
+        local_defs = {n.name for n in tree.body if isinstance(n, ast.FunctionDef)}
+        for n in ast.walk(tree):
+            if isinstance(n, ast.ImportFrom) and n.module:
+                for a in n.names:
+                    if a.name in PRIMS:
+                        names[a.asname or a.name] = f"{n.module}:{a.name}"
+                    else:
+                        names.setdefault(a.asname or a.name, f"{n.module}.{a.name}")
+            elif isinstance(n, ast.Import):
+                for a in n.names:
+                    if a.asname:
+                        names[a.asname] = a.name
+        for n in ast.walk(tree):          # every reference (call, `functools.partial(T.f, …)`, `self.crop_func = T.f`)
+            if isinstance(n, ast.Name) and isinstance(n.ctx, ast.Load):
+                if n.id in names and ":" in names[n.id]:
+                    mod, fn = names[n.id].split(":")
+                    rows.append((rel, fn, mod))
+                elif n.id in PRIMS and n.id in local_defs:
+                    rows.append((rel, n.id, this_mod))
+            elif isinstance(n, ast.Attribute) and n.attr in PRIMS and isinstance(n.value, ast.Name) and isinstance(n.ctx, ast.Load):
+                rows.append((rel, n.attr, names.get(n.value.id, f"?{n.value.id}")))
+    return sorted(set(rows))
